@@ -79,9 +79,9 @@ def generate(rng, tier):
     for i in range(n):
         m = i % 10
         if m < 6:
-            cases.append(sc.gen_dag(rng))
+            cases.append(sc.gen_dag(rng) if i % 3 else sc.with_listeners(rng, sc.gen_dag(rng)))
         elif m < 8:
-            cases.append(sc.gen_ring(rng, sufficient=True))
+            cases.append(sc.gen_ring(rng, sufficient=True) if i % 3 else sc.with_listeners(rng, sc.gen_ring(rng, sufficient=True)))
         elif m == 8 and i % 20 == 8:
             cases.append(sc.gen_dag(rng, shared_pull=True))
         elif m == 8:
@@ -92,6 +92,8 @@ def generate(rng, tier):
         cases.append(sc.gen_sparse(rng))
     for _ in range(10 if tier == "quick" else 200):
         cases.append(sc.gen_ctrl_step(rng))   # step switched from outside (monitor only)
+    for _ in range(16 if tier == "quick" else 300):
+        cases.append(sc.gen_push_merger(rng))  # a push-based component with outputs in between (monitor only)
     # finam's own components with timedelta / calendar steps (monitor only)
     for _ in range(16 if tier == "quick" else 300):
         cases.append(bf.gen_builtin(rng))
@@ -101,6 +103,8 @@ def generate(rng, tier):
 def monitor(case, obs):
     if "builtin" in case:
         return bf.monitor_builtin(case, obs)
+    if sc.has_push_comp(case):
+        return sc.monitor_push_merger(case, obs)
     comps = case["comps"]
     t0 = obs["t0"]
     if obs["phase"] != "run":
@@ -139,6 +143,8 @@ def monitor(case, obs):
 def nontrivial(case, obs):
     if "builtin" in case:
         return len(obs.get("mid_times", [])) >= 3
+    if sc.has_push_comp(case):
+        return any(e[0] == "S" and case["comps"][e[1]]["kind"] == "R" for e in obs["events"])
     comps = case["comps"]
     if sum(1 for c in comps if c["kind"] == "T") < 2:
         return False
@@ -157,7 +163,7 @@ classifiers = {
 
 
 def model_applies(case):
-    return "builtin" not in case and not sc.has_ctrl(case)
+    return "builtin" not in case and not sc.has_ctrl(case) and not sc.has_push_comp(case)
 
 
 def run_impl(case):
@@ -167,7 +173,7 @@ def run_impl(case):
 
 
 def shrink_candidates(case):
-    if "builtin" in case:
+    if "builtin" in case or sc.has_push_comp(case):
         return
     yield from sc.shrink_candidates(case)
 
